@@ -24,6 +24,8 @@ mod convex_cell_alternative;
 mod generator;
 pub mod half_space;
 pub mod integrals;
+#[cfg(meshless_voro_verif)]
+pub mod verif;
 mod voronoi_cell;
 mod voronoi_face;
 
@@ -105,6 +107,24 @@ macro_rules! cells_map_flatten_par {
             .flatten()
             .collect()
     };
+}
+
+/// Verification hook: marks start (now) and end (on drop) of the construction of one cell.
+#[cfg(meshless_voro_verif)]
+struct VerifTask(usize);
+
+#[cfg(meshless_voro_verif)]
+fn verif_task(idx: usize) -> VerifTask {
+    verif::sched_point(idx);
+    verif::emit(verif::Event::TaskStart { idx, tid: verif::thread_id() });
+    VerifTask(idx)
+}
+
+#[cfg(meshless_voro_verif)]
+impl Drop for VerifTask {
+    fn drop(&mut self) {
+        verif::emit(verif::Event::TaskEnd { idx: self.0, tid: verif::thread_id() });
+    }
 }
 
 /// The main Voronoi struct.
@@ -283,6 +303,8 @@ impl Voronoi {
 
         // Helper function to build a single cell
         let build = |(idx, faces)| {
+            #[cfg(meshless_voro_verif)]
+            let _verif_task = verif_task(idx);
             if mask.map_or(true, |mask| mask[idx]) {
                 let generator: &Generator = &generators[idx];
                 let loc = generator.loc();
@@ -580,6 +602,8 @@ impl VoronoiIntegrator<WithoutFaces> {
 
         // Helper function
         let build = |(idx, generator): (usize, &Generator)| {
+            #[cfg(meshless_voro_verif)]
+            let _verif_task = verif_task(idx);
             if cell_is_active[idx] {
                 let loc = generator.loc();
                 debug_assert_eq!(generator.id(), idx);
